@@ -45,7 +45,7 @@ def gen_part(rng, tok, p_exc=0.0, kinds=("fail", "error"), p_write=0.3):
     if part["writes"] and rng.random() < 0.15:
         part["rawbytes"] = True
     if rng.random() < 0.3:
-        part["excStyle"] = rng.choice(["cause", "context", "unhashable", "unhashable-cause"])
+        part["excStyle"] = rng.choice(["cause", "context", "unhashable", "unhashable-cause", "syntax"])
     return part
 
 
@@ -122,6 +122,9 @@ def gen_test(rng, tid, tok, kind=None, p_write=0.3):
         t["count"] = 3
     if rng.random() < 0.15:
         t["rebind"] = True
+    if rng.random() < 0.12:
+        # test names need not be plain ASCII: accents, a lone surrogate (only backslashreplace can write it), tabs
+        t["label"] = rng.choice(["caf\u00e9", "\udc80sur", "snow\u2603man", "tab\there", "q\"uote", "\U0001f600"])
     return t
 
 
@@ -155,7 +158,7 @@ def gen_layers(rng, n, with_unit=True, p_fault=0.25, allow_notimpl=True):
         if kind == "class" and bases:
             # a class layer inherits the hooks of its base classes (hasattr is true): give it its own
             lay["setUp"] = lay["tearDown"] = lay["testSetUp"] = lay["testTearDown"] = True
-        lay["excStyle"] = rng.choice([None, None, "cause", "context", "unhashable", "unhashable-cause"])
+        lay["excStyle"] = rng.choice([None, None, "cause", "context", "unhashable", "unhashable-cause", "syntax"])
         if lay["setUp"] and rng.random() < p_fault * 0.5:
             lay["setUpRaises"] = rng.choice([[0], [0], [1], [999999]])
         if lay["tearDown"] and rng.random() < p_fault:
@@ -240,6 +243,8 @@ def gen_opts(rng, allow=("repeat", "stop", "buffer", "j", "verbose", "shuffle"))
         o["verbose"] = rng.choice([0, 1, 1, 2, 3])
     if "shuffle" in allow and rng.random() < 0.15:
         o["shuffle_seed"] = rng.randint(0, 10 ** 6)
+    if rng.random() < 0.5:
+        o["argseed"] = rng.randint(0, 10 ** 6)
     return o
 
 
@@ -267,37 +272,54 @@ def materialize(world, d):
 
 
 def cli_args(d, o, extra=()):
-    args = [common.PY, os.path.join(d, "ztr_run.py"), "--path", "." if o.get("relpath") else d]
+    """the command line of a run.  With o["argseed"] the option groups are put in a seed-determined order and
+    spelling (--opt VALUE / --opt=VALUE, -jN / -j N): the runner re-parses its own arguments for children."""
+    import random as _random
+    head = [common.PY, os.path.join(d, "ztr_run.py"), "--path", "." if o.get("relpath") else d]
+    rnd = _random.Random(o["argseed"]) if o.get("argseed") is not None else None
+
+    def opt(name, value):
+        if rnd is not None and name.startswith("--") and rnd.random() < 0.5:
+            return ["%s=%s" % (name, value)]
+        return [name, str(value)]
+    groups = []
     if o.get("verbose"):
-        args.append("-" + "v" * o["verbose"])
+        groups.append(["-" + "v" * o["verbose"]])
     if o.get("repeat", 1) != 1:
-        args += ["--repeat", str(o["repeat"])]
+        groups.append(opt("--repeat", o["repeat"]))
     if o.get("stopOnError"):
-        args.append("-x")
+        groups.append(["-x"] if rnd is None or rnd.random() < 0.5 else ["--stop-on-error"])
     if o.get("buffer"):
-        args.append("--buffer")
+        groups.append(["--buffer"])
+    if o.get("color"):
+        groups.append(["-c"])
     if o.get("processes", 1) != 1:
-        args += ["-j", str(o["processes"])]
+        groups.append(["-j%d" % o["processes"]] if rnd is not None and rnd.random() < 0.5 else ["-j", str(o["processes"])])
     if o.get("shuffle_seed") is not None:
-        args += ["--shuffle", "--shuffle-seed", str(o["shuffle_seed"])]
-    for p in o.get("layer", []):
-        args += ["--layer", p]
-    for p in o.get("test", []):
-        args += ["-t", p]
+        groups.append(["--shuffle"])
+        groups.append(opt("--shuffle-seed", o["shuffle_seed"]))
+    for p_ in o.get("layer", []):
+        groups.append(["--layer", p_])
+    for p_ in o.get("test", []):
+        groups.append(["-t", p_])
     if o.get("unit"):
-        args.append("-u")
+        groups.append(["-u"])
     if o.get("non_unit"):
-        args.append("-f")
+        groups.append(["-f"])
     if o.get("at_level") is not None:
-        args += ["-a", str(o["at_level"])]
+        groups.append(["-a", str(o["at_level"])] if o["at_level"] >= 0 else ["--at-level=%d" % o["at_level"]])
     if o.get("all"):
-        args.append("--all")
+        groups.append(["--all"])
     if o.get("only_level") is not None:
-        args += ["--only-level", str(o["only_level"])]
+        groups.append(opt("--only-level", o["only_level"]))
     if o.get("list"):
-        args.append("--list-tests")
+        groups.append(["--list-tests"])
     if o.get("xml"):
-        args += ["--xml", o["xml"]]
+        groups.append(["--xml", o["xml"]])
+    if rnd is not None:
+        # patterns keep their relative order (the filter is order-independent, the listing is not asked to be)
+        rnd.shuffle(groups)
+    args = head + [a for g in groups for a in g]
     args += list(extra)
     return args
 
@@ -338,6 +360,9 @@ def run_real(world, o, d, extra=(), timeout=120, env_extra=None):
     obs.exit = p.returncode
     obs.stdout = out.decode("utf-8", "replace")
     obs.stderr = err.decode("utf-8", "replace")
+    if o.get("color"):
+        obs.raw_stdout = obs.stdout
+        obs.stdout = re.sub(r"\x1b\[[0-9;]*m", "", obs.stdout)
     if os.path.exists(trace):
         with open(trace) as f:
             for line in f:
@@ -464,8 +489,9 @@ def real_events(world, events):
     return out
 
 
-SUMMARY_RE = re.compile(r"Ran (\d+) tests with (\d+) failures, (\d+) errors and (\d+) skipped")
-TOTAL_RE = re.compile(r"Total: (\d+) tests, (\d+) failures, (\d+) errors and (\d+) skipped")
+# the plain formatter writes "... errors and N skipped", the colourising one "... errors, N skipped"
+SUMMARY_RE = re.compile(r"Ran (\d+) tests with (\d+) failures, (\d+) errors(?: and|,) (\d+) skipped")
+TOTAL_RE = re.compile(r"Total: (\d+) tests, (\d+) failures, (\d+) errors(?: and|,) (\d+) skipped")
 RUNNING_RE = re.compile(r"^Running (\S*) tests:", re.M)
 
 
